@@ -309,6 +309,149 @@ KEKULE_SPELLED = [
 ]
 
 
+# COMPOSITES (round 4): two ring systems in one molecule, as separate fragments and joined by a single bond between two CH
+# carbons.  What one ring system does to another was never generated before: every stage of the conversions that asks a
+# question about the WHOLE molecule (the SMARTS queries of __fix_rings / freak_rules, the lazy product over the components in
+# enumerate_kekule, the global acceptor / donor sets of the tautomer search) has to answer it per ring system.
+# rule-aromatised systems: bridgehead-N fused five-rings whose five-ring with exactly three sp2 atoms matches freak_rules
+RULE_AROMATISED = ['C1=CN2C=CSC2=N1', 'N1C=CN2C=CC=C12', 'S1C=CN2C=CC=C12', 'C1=CN2C=COC2=N1', 'CN1C=CN2C=CC=C12', 'C1=CN2C(S1)=NC1=CC=CC=C21',
+                   'C1=CN2C=CNC2=N1', 'C1=CN2N=CSC2=N1', 'S1C=CN2N=CC=C12', 'O1C=CN2C=CC=C12']
+# partly saturated rings: unsaturated but not aromatic (sp3 ring members); five-rings with two, three (= candidates of the rule
+# stage that no rule matches) and four sp2 atoms, six-rings
+PARTLY_SATURATED = ['O=C1CCc2ccccc12', 'O=C1Cc2ccccc2N1', 'O=C1Cc2ccccc2O1', 'O=C1CC=CN1', 'O=C1CCC=C1', 'O=C1NCc2ccccc12', 'O=C1OCC=C1', 'O=C1CSC=N1',
+                    'C=C1CC=CS1', 'C1Cc2ccccc2C1=C', 'N1C=CCC1=N', 'C1Cc2ccccc2N1', 'C1C=Cc2ccccc12', 'C1CC=NN1', 'C1C=CC=CC1', 'C1C=CCC=C1', 'O=C1CCCc2ccccc12',
+                    'C1CC=CC=N1', 'O=C1C=CCC=C1', 'C1C=CNC=C1', 'C1C=COC=C1', 'O=C1NC(=O)c2ccccc12', 'O=C1C=CC(=O)N1', 'C1=CCC=C1']
+COMPOSITE_AROMATIC = ['c1ccccc1', 'c1ccc2ccccc2c1', 'c1ccc2c(c1)ccc1ccccc12', 'c1cc[nH]c1', 'c1ccncc1', 'c1ccsc1', 'c1ccc2[nH]ccc2c1', 'N1C=CC2=NC=CC2=C1',
+                      'c1ccc2ncccc2c1', 'O=c1cc[nH]cc1', 'c1ccc2cc3ccccc3cc2c1', 'c1cnc2[nH]ccc2c1', 'c1cc[cH-]c1', 'c1cc[o+]cc1', 'c1ccc2c(c1)c1ccccc21']
+
+
+# mis-drawn aromatic rings that the SMARTS rules of __fix_rings repair before the search (N-oxides / N-imides written with a double
+# bond, sulfoxide written charged, a metal bonded to an aromatic N): the repair of one ring system must not reach another
+RULE_REPAIRED = ['O=n1ccccc1', 'N=n1ccccc1', '[O-][s+]1cccc1', 'O=n1ccn(=O)cc1', 'O=n1ccncc1', 'c1ccn(-[Fe])c1', 'O=n1ccc2ccccc2c1']
+
+
+def compose(sa, sb, rng, join):
+    """the two molecules in one container (atoms of the second renumbered behind the first); join: additionally a single bond
+    between a CH carbon of each.  Returned as the SMILES chython writes for it (the label every replay starts from)."""
+    from chython import smiles
+    A, B = smiles(sa), smiles(sb)
+    M = A.union(B, remap=True)
+    if join:
+        ca = [n for n in A._atoms if M._atoms[n].atomic_number == 6 and not M._atoms[n].charge and (M._atoms[n].implicit_hydrogens or 0) >= 1]
+        cb = [n for n in M._atoms if n not in A._atoms and M._atoms[n].atomic_number == 6 and not M._atoms[n].charge and (M._atoms[n].implicit_hydrogens or 0) >= 1]
+        if not ca or not cb:
+            return None
+        M.add_bond(rng.choice(ca), rng.choice(cb), 1)
+        return str(M)
+    return f'{sa}.{sb}'
+
+
+def composites(rng, n_random):
+    """(label, joined) : every rule-aromatised system with every partly saturated ring (both orders alternate), plus random
+    pairs over the three pools; each as two fragments and joined"""
+    pairs = []
+    for j, (x, y) in enumerate(itertools.product(RULE_AROMATISED, PARTLY_SATURATED)):
+        pairs.append((x, y) if j % 2 else (y, x))
+    for j, (x, y) in enumerate(itertools.product(RULE_REPAIRED, RULE_REPAIRED[:3] + COMPOSITE_AROMATIC[:4])):
+        pairs.append((x, y) if j % 2 else (y, x))
+    pool = RULE_AROMATISED + PARTLY_SATURATED + COMPOSITE_AROMATIC + RULE_REPAIRED
+    for _ in range(n_random):
+        pairs.append((rng.choice(pool), rng.choice(pool)))
+    out = []
+    for x, y in pairs:
+        for join in (False, True):
+            try:
+                lab = compose(x, y, rng, join)
+            except Exception:
+                lab = None
+            if lab:
+                out.append((lab, join))
+    return list(dict.fromkeys(out))
+
+
+def bond_orders(m):
+    return {(n, k): int(bd) for n, nb in m._bonds.items() for k, bd in nb.items()}
+
+
+def saturated_carbons(m):
+    """neutral non-radical carbons with four single bonds (hydrogens included): no reading of the molecule makes them aromatic"""
+    return {n for n, a in m._atoms.items() if a.atomic_number == 6 and not a.charge and not a.is_radical and a.implicit_hydrogens is not None
+            and all(int(bd) == 1 for bd in m._bonds[n].values()) and len(m._bonds[n]) + a.implicit_hydrogens == 4}
+
+
+def locality(ck, label):
+    """conversions commute with the split into connected components: on a record of several fragments, kekule() / thiele() /
+    enumerate_kekule() of the record, restricted to a fragment, are those of the fragment alone (atom numbers kept: split()
+    does not renumber).  Independent of the model; the fragments alone are the reference."""
+    from chython import smiles
+    from chython.exceptions import InvalidAromaticRing
+    M = smiles(label)
+    if M is None or M.connected_components_count < 2:
+        return
+    ck.case(('locality', label), nontrivial=True)
+    head = f'from chython import smiles\nm=smiles({label!r})\n'
+    K = None
+    for conv in ('kekule', 'thiele'):
+        src = M if conv == 'kekule' else K
+        if src is None:
+            break
+        W = src.copy()
+        parts = W.split()
+        pre = '' if conv == 'kekule' else 'm.kekule()\n'
+        try:
+            getattr(W, conv)()
+        except InvalidAromaticRing:
+            W = None
+        part_raises = False
+        for pt in parts:
+            try:
+                getattr(pt, conv)()
+            except InvalidAromaticRing:
+                part_raises = True
+        if (W is None) != part_raises:
+            ck.counterexample(f'fragment-locality:{conv}-raises:{label}', f'{conv}() of a record of several fragments raises InvalidAromaticRing exactly when it should not: '
+                              'the record and its fragments taken alone disagree', {'input': label}, 'record raises' if W is None else 'a fragment alone raises',
+                              'same outcome', 'the fragments converted alone (split())',
+                              replay_py=head + pre + f'ps=m.split()\nfor p in ps:\n    try: p.{conv}(); print(p)\n    except Exception as e: print(repr(e))\nm.{conv}(); print(m)')
+            return
+        if W is None:
+            ck.count(f'locality: {conv}() raises on the record and on a fragment')
+            return
+        bw, hw = bond_orders(W), {n: a.implicit_hydrogens for n, a in W._atoms.items()}
+        for pt in parts:
+            d = [e for e, o in bond_orders(pt).items() if bw[e] != o and e[0] < e[1]]
+            dh = [n for n, a in pt._atoms.items() if hw[n] != a.implicit_hydrogens]
+            if d or dh:
+                ck.counterexample(f'fragment-locality:{conv}:{label}', f'{conv}() of a record of several fragments converts a fragment differently from the fragment taken alone '
+                                  '(one ring system influences another)', {'input': label, 'bonds that differ': d[:8], 'hydrogens that differ': dh[:8]},
+                                  {'record': str(W)}, {'fragment alone': str(pt)}, 'the fragments converted alone (split())',
+                                  replay_py=head + pre + f'ps=m.split()\nfor p in ps: p.{conv}(); print(p)\nm.{conv}(); print(m)')
+                return
+        ck.count(f'locality: {conv}() of the record = {conv}() of its fragments')
+        if conv == 'kekule':
+            K = W
+    # enumerate_kekule of the record = product of the forms of the fragments, and no form is handed out twice / garbled later
+    W = M.copy()
+    parts = W.split()
+    try:
+        raw = list(itertools.islice(W.enumerate_kekule(), 400))
+        per = [list(itertools.islice(pt.enumerate_kekule(), 400)) for pt in parts]
+    except InvalidAromaticRing:
+        return
+    if len(raw) >= 400 or any(len(x) >= 400 for x in per):
+        ck.count('locality: too many forms to compare')
+        return
+    fw = {tuple(sorted(bond_orders(f).items())) for f in raw}
+    prod = {tuple(sorted(sum((list(bond_orders(f).items()) for f in combo), []))) for combo in itertools.product(*per)}
+    ck.count(f'locality: enumerate_kekule() of the record compared with the product over its fragments', len(prod))
+    if fw != prod or len(raw) != len(fw):
+        ck.counterexample(f'enumerate-kekule-not-product:{label}', 'the forms enumerate_kekule() yields for a record of several fragments are not exactly the combinations of the forms '
+                          'of its fragments, each once', {'input': label}, {'forms yielded': len(raw), 'distinct': len(fw), 'not a combination of fragment forms': len(fw - prod),
+                                                                              'combinations missing': len(prod - fw)}, {'combinations': len(prod)},
+                          'product of enumerate_kekule() over the fragments taken alone (split())',
+                          replay_py=head + 'print(len(list(m.enumerate_kekule())))\nfor f in m.enumerate_kekule(): print(f)\nfor p in m.split(): print([str(f) for f in p.enumerate_kekule()])')
+
+
 def ring_smiles(tokens):
     return tokens[0] + '1' + ''.join(tokens[1:]) + '1'
 
@@ -795,6 +938,10 @@ class Pipe:
         if [x[:5] for x in s0[0]] != [x[:5] for x in s1[0]] or [(n, [q for q, _ in nb]) for n, nb in s0[1]] != [(n, [q for q, _ in nb]) for n, nb in s1[1]]:
             self.bad(True, f'thiele-changes-molecule:{smi}', 'thiele() changed atoms, isotopes, charges, radicals or connectivity', label, s1, s0, 'snapshot comparison', tcode)
         thchg = self.h_changes('thiele', k, a, label, tcode, True)
+        sat = sorted(n for n in saturated_carbons(k) if any(int(bd) == 4 for bd in a._bonds[n].values()))
+        if sat:
+            self.bad(True, f'thiele-aromatises-saturated-carbon:{smi}', f'thiele() writes aromatic bonds at the saturated carbon(s) {sat} (four single bonds, hydrogens included)',
+                     label, str(a), str(k), 'no aromatic bond at a neutral carbon with four single bonds', tcode, {'atoms': sat})
         if not thchg:
             # bond level: thiele() only writes aromatic bonds; the one exception is the biphenylene reset (a bond of an all-sp2
             # four-membered ring between atoms that are aromatic in the result becomes single).  (With a moved hydrogen the
@@ -999,6 +1146,23 @@ class Pipe:
             self.bad(clean, f'enumerate-raises:{label}', 'enumerate_kekule() raises although kekule() succeeded', label, repr(e), 'forms', 'exception', fcode)
             return
         self.forms_total += len(forms)
+        if which == 'A':
+            # history: the consumer converts every form IN PLACE as soon as it is yielded, while the generator is suspended; the forms
+            # are independent objects, so the sequence must be the one obtained by listing first
+            inter = []
+            try:
+                for f in itertools.islice(src_m.copy().enumerate_kekule(), 48):
+                    inter.append(snap(f))
+                    f.thiele()
+            except Exception as e:
+                inter.append(repr(e))
+            if inter != [snap(f) for f in forms]:
+                self.bad(True, f'enumerate-kekule-interleaved:{label}', 'enumerate_kekule() yields other forms when every yielded form is aromatised in place before the next is '
+                         'requested than when the forms are listed first (the yielded molecules are not independent of the suspended generator)', label,
+                         {'interleaved': len(inter), 'first difference': next((j for j, (x, y) in enumerate(zip(inter, [snap(f) for f in forms])) if x != y), min(len(inter), len(forms)))},
+                         {'listed first': len(forms)}, 'the same enumeration listed before any form is touched',
+                         code_of(prep_code + 'a=[str(f) for f in m.enumerate_kekule()]\nb=[]\nfor f in m.enumerate_kekule():\n    b.append(str(f)); f.thiele()\nprint(a==b, a, b)'))
+            ck.count('enumerate_kekule: interleaved consumption compared')
         ck.count(f'forms-per-molecule({which})={min(len(forms), 8)}{"+" if len(forms) >= 8 else ""}')
         hk = [at.implicit_hydrogens for _, at in k.atoms()]
         seen = set()
@@ -1717,6 +1881,42 @@ def directed_search(ck, failed, budget=24):
     return found
 
 
+def light_oracles(ck, pipe, label, m):
+    """the model-independent part of the pipeline for bulk composites: kekule -> thiele -> kekule -> thiele on the real code;
+    atoms / connectivity / hydrogens kept, no aromatic bond at a saturated carbon, the round trip is a fixpoint"""
+    from chython.exceptions import InvalidAromaticRing
+    k = m.copy()
+    try:
+        k.kekule()
+    except InvalidAromaticRing:
+        ck.count('composite: kekule() raises InvalidAromaticRing')
+        return
+    a = k.copy()
+    a.thiele()
+    ck.case(('composite', label), nontrivial=has_arom(a))
+    code = f'from chython import smiles\nm=smiles({label!r}); m.kekule(); print(m); m.thiele(); print(m, [a.implicit_hydrogens for _,a in m.atoms()]); m.kekule(); print(m)'
+    s0, s1 = snap(k), snap(a)
+    if [x[:5] for x in s0[0]] != [x[:5] for x in s1[0]] or [(n, [q for q, _ in nb]) for n, nb in s0[1]] != [(n, [q for q, _ in nb]) for n, nb in s1[1]]:
+        ck.counterexample(f'thiele-changes-molecule:{label}', 'thiele() changed atoms, isotopes, charges, radicals or connectivity', {'input': label}, s1, s0, 'snapshot comparison', replay_py=code)
+    sat = sorted(n for n in saturated_carbons(k) if any(int(bd) == 4 for bd in a._bonds[n].values()))
+    if sat:
+        ck.counterexample(f'thiele-aromatises-saturated-carbon:{label}', f'thiele() writes aromatic bonds at the saturated carbon(s) {sat} (four single bonds, hydrogens included)',
+                          {'input': label, 'atoms': sat}, str(a), str(k), 'no aromatic bond at a neutral carbon with four single bonds', replay_py=code)
+    moved = [n for n, at in k._atoms.items() if at.implicit_hydrogens != a._atoms[n].implicit_hydrogens]
+    if sum(at.implicit_hydrogens or 0 for at in k._atoms.values()) != sum(at.implicit_hydrogens or 0 for at in a._atoms.values()):
+        ck.counterexample(f'thiele-changes-total-H:{label}', 'thiele() changes the total hydrogen count', {'input': label}, str(a), str(k), 'sum of hydrogen counts', replay_py=code)
+    x = a.copy()
+    try:
+        x.kekule()
+    except InvalidAromaticRing as e:
+        if not moved:
+            ck.counterexample(f'rekekule-raises:{label}', 'kekule() raises on the aromatic form produced by thiele()', {'input': label}, repr(e), 'a Kekule form', 'exception', replay_py=code)
+        return
+    if not moved and [at.implicit_hydrogens for at in x._atoms.values()] != [at.implicit_hydrogens for at in k._atoms.values()] and not x.check_valence() and not k.check_valence():
+        ck.counterexample(f'rekekule-changes-H:{label}', 'kekule() of the aromatic form produced by thiele() changes hydrogen counts', {'input': label},
+                          [at.implicit_hydrogens for at in x._atoms.values()], [at.implicit_hydrogens for at in k._atoms.values()], 'hydrogen counts before / after', replay_py=code)
+
+
 def run(ck):
     from rdkit import RDLogger
     RDLogger.DisableLog('rdApp.*')
@@ -1728,18 +1928,19 @@ def run(ck):
                        '_kekule_component is hand-modelled statement by statement (set iteration order of double_bonded is an input); tie = first forms / raise of '
                        'the real generator on every component of every input, with buffer 7 and 0; only the order-1-or-2 / length invariant is proved about it',
                        '__prepare_rings is hand-modelled (SSSR is an input of the model); tie = exhaustive atom-state grid + every whole input molecule',
-                       'thiele(fix_tautomers=False) is hand-modelled (inputs of the model: SSSR, the second ring search _sssr, the freak SMARTS queries); tie = pruned skeleton, '
-                       'ring count, freak rings and final bond orders on every Kekule form of the inputs; the hydrogen-moving search of fix_tautomers=True is not modelled',
+                       'thiele(fix_tautomers=False / True) is modelled (inputs of the model: SSSR, the second ring search _sssr, the freak SMARTS queries, set iteration orders); '
+                       'tie = every decision regenerated from the source (gen_thielecls, gen_thielepost: skeleton with holes, fail closed) and proved equal to the model, '
+                       'plus pruned skeleton, ring count, freak rings and final bond orders on every Kekule form of the inputs',
                        'the carbon hydrogen theorem is over the generated valence tables (translator elements) and C04\'s calc_implicit model',
                        'the SMARTS rule engine behind __fix_rings / freak_rules is not modelled: the relation is applied to the molecule after __fix_rings',
                        'calc_implicit (hydrogen recalculation) is an oracle of the driver model; it is modelled by C04',
                        'hydrogen / valence oracles are claimed inside the domain where RDKit and chython\'s own valence rules accept a Kekule spelling of the input']
     ck.extra['rule'] = ('inputs: curated benzenoids / 5- and 6-membered heterocycles (N O S P B Se Te) / charged / quinoid / fused / 4-ring / malformed aromatic SMILES, '
                         'all c/n six-rings, pyrrole-type X + c/n five-rings, fused templates with random aza substitution, test/arenes.sdf, '
-                        'test/heterocycles_charges.smi, a lipophilicity.csv sample; each also under one random renumbering. non-trivial = the molecule has '
+                        'test/heterocycles_charges.smi, a lipophilicity.csv sample; each also under one random renumbering; composites = pairs of ring systems (rule-aromatised / partly saturated / aromatic) as two fragments and joined by a single bond. non-trivial = the molecule has '
                         'aromatic bonds and the conversion produced a form (not InvalidAromaticRing); grid: the state is accepted; search: the generator yielded')
     t00 = time.time()
-    proved = common.standard_proof_steps(ck, translators=['elements', 'kekulecls', 'thielecls'], extra_targets=['model/Thiele.vo'])
+    proved = common.standard_proof_steps(ck, translators=['elements', 'kekulecls', 'thielecls', 'thielepost', 'kekulecomp'], extra_targets=['model/Thiele.vo'])
     t_proof = time.time()
     rules_need_aromatic_atom(ck)
     cs = Cases('c05')
@@ -1777,6 +1978,28 @@ def run(ck):
                 pipe.cmp_bad(dom and res[2] and res_r[2], res[3] or res_r[3], res[4] or res_r[4], f'renumbering-result:{label}',
                              'the aromatic form after kekule()+thiele() depends on the atom numbering', label, {'bonds that differ': diff[:10], 'H that differ': diff_h[:10], 'form': str(ar)},
                              str(a0), 'bond orders and hydrogen counts compared through the renumbering', None, {'numbering': list(mr._atoms)})
+    # composites: two ring systems in one molecule.  All through the model-independent oracles (saturated carbons, locality of the
+    # conversions on multi-fragment records); a sample through the whole pipeline (relations, models of thiele / kekule)
+    crng = random.Random(f'{ck.seed}:c05:composites')
+    comp = composites(crng, 40 if ck.tier == 'quick' else 300)
+    piped = set(crng.sample(range(len(comp)), min(len(comp), 24 if ck.tier == 'quick' else 120)))
+    for j, (label, joined) in enumerate(comp):
+        try:
+            mc = smiles_of(label)
+        except Exception as e:
+            ck.count(f'input-rejected-by-parser:{type(e).__name__}')
+            continue
+        ck.count(f'composite:{"joined by a single bond" if joined else "two fragments"}')
+        if j in piped:
+            guarded('composite', label, mc)
+        else:
+            light_oracles(ck, pipe, label, mc)
+        if not joined:
+            try:
+                locality(ck, label)
+            except Exception as e:
+                ck.counterexample(f'conversion-crash:{type(e).__name__}:{label}', f'a conversion of a multi-fragment record raises {type(e).__name__}: {e}', {'input': label}, repr(e),
+                                  'no exception', 'exception class')
     t_py = time.time()
     ok, failed, log, nshards = cs.run()
     ck.extra['seconds'] = {'proof steps': round(t_proof - t00, 1), 'grid': round(t_grid - t_proof, 1), 'real code + oracles': round(t_py - t_grid, 1), 'coq cases': round(time.time() - t_py, 1)}
